@@ -1369,7 +1369,13 @@ func (m *Machine) appendVals(dst, src Value, pos token.Pos) Value {
 			target = BSlice{obj, i64_0, d.n, newLen}
 			m.noteAlloc(newLen, pos)
 			if d.obj != nil {
-				m.copyBytes(BSlice{obj, i64_0, d.n, newLen}, d, pos)
+				if d.off.IsConst() && d.off.val == 0 {
+					// arrays are immutable values: the grown object starts as the old contents. Exact because the
+					// new capacity equals the new length, so every byte past the old length is overwritten below.
+					obj.arr = d.obj.arr
+				} else {
+					m.copyBytes(BSlice{obj, i64_0, d.n, newLen}, d, pos)
+				}
 			}
 		}
 		m.copyBytes(BSlice{target.obj, Bin("bvadd", target.off, d.n), sn, sn}, BSlice{&ByteObj{arr: sarr}, soff, sn, sn}, pos)
